@@ -10,7 +10,7 @@ for i in $(seq 1 $N); do
   [ -d $wt ] || { git -C /repo worktree add --detach $wt HEAD -q; cp /repo/Cargo.lock $wt/; }
   (
     export ANEMO_REPO=$wt VERIF_EVIDENCE_DIR=/var/tmp/anemo-verif-matrix/fev$i VERIF_REPLAY_DIR=/var/tmp/anemo-verif-matrix/frp$i
-    export VERIF_SCRATCH=/var/tmp/anemo-verif-w$i VERIF_KANI_TARGET=/var/tmp/anemo-verif-w$i/kani-target
+    export VERIF_SCRATCH=/var/tmp/anemo-verif-wf$i VERIF_KANI_TARGET=/var/tmp/anemo-verif-wf$i/kani-target
     mkdir -p $VERIF_EVIDENCE_DIR $VERIF_REPLAY_DIR
     awk -v n=$N -v i=$i 'NR % n == i % n' /tmp/neutral_full.list | while read id; do
       props=${id%-*}; [ -f neutral/$id/props ] && props=$(cat neutral/$id/props)
